@@ -9,6 +9,7 @@ CONSTANTS
   MaxObjs = 2
   Parents = {"none"}
   Fmts = {"F1", "F2", "F3"}
+  SecondReport = FALSE
   Variant = "impl"
 INVARIANT ExactlyOnce
 INVARIANT RightList
